@@ -1,20 +1,53 @@
 (* C05 - A correct node's own votes obey the voting rules under every event order.
-   Proved for the Votor model - the guard under which each kind of vote is cast (finalize, notarize,
-   skip) for every state and event, verbatim forwarding of standstill bundles, and the TRACE-level
-   statement for every input sequence from the initial state (C05_every_trace_obeys_the_rules, proved
-   with an 8-clause per-slot invariant through all handlers and pruning): at most one initial vote
-   (notar XOR skip) per slot, final(s) only for the block it notarized in s, with that block's notar
-   certificate seen and no skip / fallback vote in s, nothing but a repeated final vote after
-   final(s), notar only on a ParentReady parent (window start) or on the block it notarized in the
-   previous slot, fallback votes only in response to the pool's SafeToNotar / SafeToSkip events
-   (Model/NodeRules.v: vote_okb / trace_ok is the executable statement).  PARTIAL in this respect
-   only: that own votes are never a slashable combination w.r.t. the pool's conflict relation is
-   decided by replaying the own votes of the implementation through the proved vote-admission model
-   (C04) in the oracle c05_step_ok, and by the model/implementation correspondence.  The clause
-   "fallback votes only after the condition held at that node" concerns the composition with the pool
-   and is decided by C06. *)
+   PROVED at model level, for every input sequence from the initial state (no bounds):
+   - the guard under which each kind of vote is cast (finalize, notarize, skip) for every state and
+     event, and verbatim forwarding of standstill bundles (C05_*_guard, C05_skip_window_votes,
+     C05_standstill_forwarded);
+   - the TRACE-level rules (C05_every_trace_obeys_the_rules, an 8-clause per-slot invariant through all
+     handlers and pruning): at most one initial vote (notar XOR skip) per slot, final(s) only for the
+     block it notarized in s, with that block's notar certificate seen and no skip / fallback vote in s,
+     nothing but a repeated final vote after final(s), notar only on a ParentReady parent (window start)
+     or on the block it notarized in the previous slot, fallback votes only in response to the pool's
+     SafeToNotar / SafeToSkip events (Model/NodeRules.v: vote_okb / trace_ok is the executable statement);
+   - OWN VOTES ARE NEVER A SLASHABLE COMBINATION (this file, second half; Proofs/OwnVotesProofs.v,
+     Proofs/OwnVotesNode.v; vocabulary in Model/OwnVotesSpec.v):
+       * every own vote of a trace is signed with the node's own index (C05_own_votes_signed_by_self);
+       * R1-R3 exclude every pair of the pool's conflict relation PoolSpec.conflicts
+         (C05_rules_exclude_conflicts: any list passing the executable rule check is conflict-free), hence no
+         two own votes of any Votor trace - earlier/later in either order - conflict
+         (C05_own_votes_never_conflict, executable form C05_own_votes_conflict_free with its meaning
+         C05_conflict_free_meaning).  No pair allowed by R1-R3 is a conflict; the converse fails as expected:
+         the rules also forbid harmless repeats (C05_rules_stricter_than_conflicts);
+       * replaying the own votes of any trace, in order, through the pool's vote-admission model
+         (check_slashable / should_ignore / ss_add_vote - what the oracle c05_step_ok does with the
+         IMPLEMENTATION's votes) never yields a slashable verdict, and every refusal is a duplicate of an
+         earlier own vote of the same slot in the sense of PoolSpec.equivalent (C05_replay_never_slashable;
+         C05_oracle_replay_accepts is the statement about the oracle's own function replay_own).
+         FINDING about the statement, not about the code: "the only refusals are EXACT repeats" is false of
+         Votor on its own (C05_refusals_exact_repeats_only_refuted): handed SafeToSkip for a slot it has not
+         voted in, Votor broadcasts skip-fallback BEFORE the skip votes of the window and the skip vote of
+         that slot is then refused as an equivalent repeat; the pool never hands that event before the own
+         vote (C06), and repeats are harmless;
+       * every own vote is cast for a slot that is not pruned in the state it is cast in, and not retired
+         there - except the repetition of the finalization vote already cast for that slot
+         (C05_votes_cast_for_live_slots).  The one exception to "repetition": the genesis slot is retired from
+         the start, and Votor handed a notarization certificate for the genesis block casts final(0)
+         (C05_genesis_final_vote_witness; needs a quorum signing notar for slot 0);
+       * composed node (Model/Node.v, Pool wired to Votor as in consensus.rs): the votes a node decides are
+         exactly the own votes of a Votor trace (C05_node_decisions_are_a_votor_trace); the votes forwarded
+         from standstill bundles were decided and broadcast by the node in an earlier step
+         (C05_standstill_rebroadcasts_earlier_votes), so no two votes a node ever broadcasts conflict
+         (C05_node_broadcasts_never_conflict) - under the decidable premise loopback_okb: own-signed votes
+         reach the node's pool only after the node broadcast them (signatures are unforgeable, C09).  The
+         premise is satisfiable on runs with non-empty bundles (C05_node_nonvacuous) and necessary
+         (C05_loopback_premise_needed).
+   NOT PROVED HERE (remains with the oracle / other properties): the correspondence between the models and
+   the implementation (decided by the C05 / C04 / C18 correspondence checks and the oracle c05_step_ok on
+   the implementation's broadcast log); the clause "fallback votes only after the condition held at that
+   node" is about the pool and is the subject of C06. *)
 From Coq Require Import List NArith Bool.
-From AG Require Import Gen.Params Model.Pool Model.PoolSpec Model.Votor Model.NodeRules Proofs.VotorProofs Proofs.SafetyLink.
+From AG Require Import Gen.Params Model.Pool Model.PoolSpec Model.Votor Model.NodeRules Model.Node Model.OwnVotesSpec
+                       Proofs.VotorProofs Proofs.SafetyLink Proofs.OwnVotesProofs Proofs.OwnVotesNode Oracle.VotorRun.
 Import ListNotations.
 Open Scope N_scope.
 
@@ -54,3 +87,147 @@ Print Assumptions C05_notar_vote_guard.
 Print Assumptions C05_skip_window_votes.
 Print Assumptions C05_standstill_forwarded.
 Print Assumptions C05_every_trace_obeys_the_rules.
+
+(* ====================== own votes are never a slashable combination ====================== *)
+Theorem C05_own_votes_signed_by_self : forall own ins v,
+  In v (own_votes (votor_trace own votor_init ins)) -> v_signer v = own.
+Proof. exact own_votes_signed_by_self. Qed.
+
+(* R1-R3 exclude every conflict: a vote list passing the executable rule check (against any evidence) is
+   pairwise free of the pool's conflict relation *)
+Theorem C05_rules_exclude_conflicts : forall ev vs, rules_ok vs ev = true -> conflict_free vs = true.
+Proof. exact rules_ok_conflict_free. Qed.
+
+Theorem C05_conflict_free_meaning : forall vs,
+  conflict_free vs = true <-> (forall v w, In v vs -> In w vs -> slashable_pair v w = false).
+Proof. exact conflict_free_spec. Qed.
+
+(* no two own votes of any trace conflict: never notar(b) and notar(b') with b <> b', never notar and skip,
+   never final together with skip / skip-fallback / notar-fallback in one slot - in either order *)
+Theorem C05_own_votes_never_conflict : forall own ins v w,
+  In v (own_votes (votor_trace own votor_init ins)) -> In w (own_votes (votor_trace own votor_init ins)) ->
+  v_slot v = v_slot w -> conflicts (v_kind v) (v_kind w) = None.
+Proof. exact own_votes_never_conflict. Qed.
+
+Theorem C05_own_votes_conflict_free : forall own ins,
+  conflict_free (own_votes (votor_trace own votor_init ins)) = true.
+Proof. exact own_votes_conflict_free. Qed.
+
+(* the rules are strictly stronger: an exact repeat of the notarization vote is no offence but R1 forbids it *)
+Theorem C05_rules_stricter_than_conflicts : forall ev,
+  conflicts (KNotar 5) (KNotar 5) = None /\
+  vote_okb [mkVote 1 (KNotar 5) 0] ev (mkVote 1 (KNotar 5) 0) = false.
+Proof. exact rules_stricter_than_conflicts. Qed.
+
+(* replay through the vote-admission model of the pool (C04): one verdict per vote, never slashable, and a
+   refusal only for an exact / equivalent repeat of an earlier own vote of that slot *)
+Theorem C05_replay_never_slashable : forall e own ins,
+  let vs := own_votes (votor_trace own votor_init ins) in
+  length (replay_verdicts e [] vs) = length vs /\
+  forall j vd, nth_error (replay_verdicts e [] vs) j = Some vd -> vd = VOk \/ (vd = VDuplicate /\ repeats_earlier vs j).
+Proof. exact votor_replay_never_slashable. Qed.
+
+(* ... in terms of the function the oracle c05_step_ok evaluates on the implementation's votes *)
+Theorem C05_oracle_replay_accepts : forall e own ins,
+  replay_own e [] (own_votes (votor_trace own votor_init ins)) = true.
+Proof. exact votor_replay_own_accepts. Qed.
+
+(* "only EXACT repeats are refused" does not hold for Votor on its own (see the header) *)
+Theorem C05_refusals_exact_repeats_only_refuted :
+  exists own ins j x,
+    let vs := own_votes (votor_trace own votor_init ins) in
+    nth_error (replay_verdicts (mkEpoch [1; 1; 1; 1] own) [] vs) j = Some VDuplicate /\
+    nth_error vs j = Some x /\ ~ In x (firstn j vs).
+Proof. exact exact_repeats_only_refuted. Qed.
+
+(* every own vote, in the state [t] it is cast in (after any input prefix [pre]): signed by the node, slot not
+   below the first unpruned slot, and not retired - unless it is the finalization vote cast before (or the
+   finalization vote of the genesis slot) *)
+Theorem C05_votes_cast_for_live_slots : forall own pre i v,
+  let t := votor_after own votor_init pre in
+  In v (decision_votes i (snd (fst (votor_step own t i)))) ->
+  v_signer v = own /\
+  v_first_unpruned t <= v_slot v /\
+  (v_retired t (v_slot v) = true ->
+   v_kind v = KFinal /\ (v_slot v = 0 \/ In v (own_votes (votor_trace own votor_init pre)))).
+Proof. exact own_votes_cast_ok. Qed.
+
+Theorem C05_genesis_final_vote_witness :
+  snd (fst (votor_step 0 votor_init (VPool (ECertCreated (mkCert 0 (CNotar 0) [] [] 0))))) =
+    [VBVote (mkVote 0 KFinal 0); VBCert (mkCert 0 (CNotar 0) [] [] 0)] /\
+  v_retired votor_init 0 = true.
+Proof. exact genesis_final_vote_witness. Qed.
+
+(* ---------- the composed node ---------- *)
+Theorem C05_node_decisions_are_a_votor_trace : forall e ins nd,
+  node_decided (node_trace e nd ins) = own_votes (votor_trace (own e) (nd_votor nd) (node_votor_ins e nd ins)).
+Proof. exact node_decided_votor_trace. Qed.
+
+(* votes forwarded verbatim from a standstill bundle are re-broadcasts of votes decided in earlier steps *)
+Theorem C05_standstill_rebroadcasts_earlier_votes : forall e ins,
+  loopback_okb (own e) [] (node_trace e node_init ins) = true ->
+  rebroadcasts_old [] (node_trace e node_init ins).
+Proof. exact node_standstill_rebroadcasts. Qed.
+
+Theorem C05_node_broadcasts_never_conflict : forall e ins v w,
+  loopback_okb (own e) [] (node_trace e node_init ins) = true ->
+  In v (node_broadcast (node_trace e node_init ins)) -> In w (node_broadcast (node_trace e node_init ins)) ->
+  v_signer v = own e /\ (v_slot v = v_slot w -> conflicts (v_kind v) (v_kind w) = None).
+Proof. exact node_broadcast_never_conflict. Qed.
+
+Theorem C05_node_oracle_replay_accepts : forall e ins,
+  replay_own e [] (node_decided (node_trace e node_init ins)) = true.
+Proof. exact node_broadcast_replay_accepts. Qed.
+
+Theorem C05_loopback_premise_needed :
+  let tr := node_trace (mkEpoch [1; 1; 1; 1] 0) node_init [NVote (mkVote 1 KSkip 0); NStandstill; NBlock 1 11 (0, 0)] in
+  loopback_okb 0 [] tr = false /\
+  node_broadcast tr = [mkVote 1 KSkip 0; mkVote 1 (KNotar 11) 0] /\
+  conflict_free (node_broadcast tr) = false.
+Proof. exact loopback_premise_needed. Qed.
+
+(* ---------- non-vacuity ---------- *)
+(* a trace with every vote kind, a repeated finalization vote (second certificate event), an equivalent
+   repeat (skip-fallback after skip) and a standstill bundle that is not counted as a decision; a
+   slashable pair is recognised as such *)
+Example C05_nonvacuous :
+  let ins := [VBlock 1 11 (0, 0); VPool (ECertCreated (mkCert 1 (CNotar 11) [0; 1; 2] [] 3));
+              VPool (ECertCreated (mkCert 1 (CNotar 11) [0; 1; 2] [] 3)); VTimeout 2;
+              VPool (ESafeToSkip 2); VPool (ESafeToNotar (3, 33)); VPool (EStandstill 1 [] [mkVote 9 KSkip 7])] in
+  let vs := own_votes (votor_trace 0 votor_init ins) in
+  vs = [mkVote 1 (KNotar 11) 0; mkVote 1 KFinal 0; mkVote 1 KFinal 0; mkVote 2 KSkip 0; mkVote 3 KSkip 0;
+        mkVote 2 KSkipFb 0; mkVote 3 (KNotarFb 33) 0] /\
+  replay_verdicts (mkEpoch [1; 1; 1; 1] 0) [] vs = [VOk; VOk; VDuplicate; VOk; VOk; VDuplicate; VOk] /\
+  conflict_free vs = true /\
+  conflict_free [mkVote 1 (KNotar 11) 0; mkVote 1 KSkip 0] = false.
+Proof. vm_compute. repeat split; reflexivity. Qed.
+
+(* the loopback premise holds on a node run whose two standstill bundles are not empty *)
+Example C05_node_nonvacuous :
+  let e := mkEpoch [1; 1; 1; 1] 0 in
+  let tr := node_trace e node_init
+              [NBlock 1 11 (0, 0); NVote (mkVote 1 (KNotar 11) 0); NVote (mkVote 1 (KNotar 11) 1); NStandstill;
+               NTimeout 2; NVote (mkVote 2 KSkip 0); NStandstill] in
+  loopback_okb (own e) [] tr = true /\
+  node_decided tr = [mkVote 1 (KNotar 11) 0; mkVote 2 KSkip 0; mkVote 3 KSkip 0] /\
+  flat_map nstep_rebroadcast tr = [mkVote 1 (KNotar 11) 0; mkVote 1 (KNotar 11) 0; mkVote 2 KSkip 0].
+Proof. vm_compute. repeat split; reflexivity. Qed.
+
+Print Assumptions C05_own_votes_signed_by_self.
+Print Assumptions C05_rules_exclude_conflicts.
+Print Assumptions C05_conflict_free_meaning.
+Print Assumptions C05_own_votes_never_conflict.
+Print Assumptions C05_own_votes_conflict_free.
+Print Assumptions C05_rules_stricter_than_conflicts.
+Print Assumptions C05_replay_never_slashable.
+Print Assumptions C05_oracle_replay_accepts.
+Print Assumptions C05_refusals_exact_repeats_only_refuted.
+Print Assumptions C05_votes_cast_for_live_slots.
+Print Assumptions C05_genesis_final_vote_witness.
+Print Assumptions C05_node_decisions_are_a_votor_trace.
+Print Assumptions C05_standstill_rebroadcasts_earlier_votes.
+Print Assumptions C05_node_broadcasts_never_conflict.
+Print Assumptions C05_node_oracle_replay_accepts.
+Print Assumptions C05_loopback_premise_needed.
+Print Assumptions C05_nonvacuous.
+Print Assumptions C05_node_nonvacuous.
